@@ -73,3 +73,9 @@ Definition consumed (avail docend : N) : N :=
 (* the bytes of a metadata answer the client consumes: limitReader, then the decoder *)
 Definition consumed_of (limit : Z) (docend total : N) : N :=
   consumed (N.min (Z.to_N (eff_limit limit)) total) docend.
+
+(* the referrers index of the tag schema (manifest GET): limitSize / the Content-Length check
+   refuse an index over the limit before its body is touched; otherwise content.ReadAll (or the
+   digest computation, when the registry sends no Docker-Content-Digest) reads all of it *)
+Definition consumed_index (limit : Z) (size : N) : N :=
+  if limit_size_rejects limit (Z.of_N size) then 0 else size.
